@@ -7,7 +7,7 @@ set -u
 N=${1:-4}; TIER=${2:-quick}; GLOB=${3:-'C*'}
 source /verif/env.sh
 OUT=/tmp/sweep; mkdir -p $OUT; : > $OUT/results.jsonl
-ls -d /verif/seeded/$GLOB | sort > $OUT/all.txt
+eval ls -d /verif/seeded/$GLOB | sort > $OUT/all.txt
 git -C /repo worktree prune
 for i in $(seq 1 $N); do
   (
